@@ -1,7 +1,9 @@
 #![allow(dead_code)]
+mod algebra;
 mod api;
 mod base;
 mod ev;
+mod extra;
 mod gen;
 mod hist;
 mod kinds;
@@ -16,6 +18,22 @@ use ev::*;
 use serde_json::json;
 use std::collections::BTreeMap;
 use std::time::Instant;
+
+// counting allocator: live heap bytes of the process (black-box cross-check for C16)
+struct Counting;
+static LIVE: std::sync::atomic::AtomicUsize = std::sync::atomic::AtomicUsize::new(0);
+unsafe impl std::alloc::GlobalAlloc for Counting {
+    unsafe fn alloc(&self, l: std::alloc::Layout) -> *mut u8 {
+        LIVE.fetch_add(l.size(), std::sync::atomic::Ordering::Relaxed);
+        unsafe { std::alloc::System.alloc(l) }
+    }
+    unsafe fn dealloc(&self, p: *mut u8, l: std::alloc::Layout) {
+        LIVE.fetch_sub(l.size(), std::sync::atomic::Ordering::Relaxed);
+        unsafe { std::alloc::System.dealloc(p, l) }
+    }
+}
+#[global_allocator]
+static GLOBAL: Counting = Counting;
 
 pub struct Args(pub BTreeMap<String, String>);
 impl Args {
@@ -139,7 +157,7 @@ fn cmd_pairs(a: &Args) -> Ev {
     let only = a.0.get("only_run").and_then(|v| v.parse::<u64>().ok());
     let mut ev = Ev::new(&prop);
     let (w, keeps) = kinds::kind_facts(&kind);
-    let uni = universe(w, None);
+    let uni = universe(w, a.0.get("maxlen").and_then(|v| v.parse::<u8>().ok()));
     let mut run = 0u64;
     let mut done = 0u64;
     while done < rounds && !budget.expired() && ev.violations.is_empty() {
@@ -166,6 +184,74 @@ fn cmd_pairs(a: &Args) -> Ev {
         if only.is_some() {
             break;
         }
+    }
+    ev
+}
+
+fn cmd_threads(a: &Args) -> Ev {
+    let kind = a.s("kind", "u8");
+    let seed = a.u("seed", 1);
+    let shard = a.u("shard", 0);
+    let iters = a.u("iters", 200);
+    let budget = Budget::new(a.u("time", 0));
+    let mut ev = Ev::new("C14");
+    let (w, keeps) = kinds::kind_facts(&kind);
+    let uni = universe(w, a.0.get("maxlen").and_then(|v| v.parse::<u8>().ok()));
+    let mut g = gen::Gen::new(w, keeps, uni, Rng::from_parts(&[seed, shard, 0x5448]), false);
+    let mut world = world::new_world(&kind);
+    let mut rj = a.json();
+    rj["cmd"] = json!("threads");
+    let mut sigs = std::collections::HashSet::new();
+    extra::run_threads(world.as_mut(), &mut g, &mut ev, iters, &budget, rj, &mut sigs);
+    ev.count("threads/distinct_interleaving_signatures", sigs.len() as u64);
+    ev
+}
+
+fn cmd_churn(a: &Args) -> Ev {
+    let kind = a.s("kind", "u8");
+    let seed = a.u("seed", 1);
+    let shard = a.u("shard", 0);
+    let cycles = a.u("cycles", 20000);
+    let budget = Budget::new(a.u("time", 0));
+    let mut ev = Ev::new("C16");
+    let (w, keeps) = kinds::kind_facts(&kind);
+    let uni = universe(w, None);
+    let mut g = gen::Gen::new(w, keeps, uni, Rng::from_parts(&[seed, shard, 0x4348]), false);
+    let mut world = world::new_world(&kind);
+    let mut rj = a.json();
+    rj["cmd"] = json!("churn");
+    extra::run_churn(world.as_mut(), &mut g, &mut ev, cycles, a.u("rc", 0) == 1, &budget, rj, &|| LIVE.load(std::sync::atomic::Ordering::Relaxed));
+    ev
+}
+
+fn cmd_sweep(a: &Args) -> Ev {
+    let prop = a.s("prop", "C01");
+    let kind = a.s("kind", "u8");
+    let maxlen = a.u("maxlen", 2) as u8;
+    let budget = Budget::new(a.u("time", 0));
+    let mut ev = Ev::new(&prop);
+    let mut rj = a.json();
+    rj["cmd"] = json!("sweep");
+    let is_set = a.u("set", 0) == 1;
+    extra::run_sweep(&kind, &prop, maxlen, is_set, a.u("max_states", 200000) as usize, &budget, &mut ev, rj);
+    ev
+}
+
+fn cmd_algebra(a: &Args) -> Ev {
+    let kind = a.s("kind", "u8");
+    let seed = a.u("seed", 1);
+    let mut ev = Ev::new("C17");
+    let mut rj = a.json();
+    rj["cmd"] = json!("algebra");
+    let exhaustive = kind == "u8" && a.u("exhaustive", 1) == 1;
+    let per_len = a.u("per_len", 4) as usize;
+    let max_pairs = a.u("max_pairs", 6_000_000);
+    fn go<K: kinds::Kind>(ev: &mut Ev, seed: u64, ex: bool, per_len: usize, max_pairs: u64, rj: serde_json::Value) {
+        algebra::algebra::<K>(ev, seed, ex, per_len, max_pairs, rj)
+    }
+    with_kind!(kind.as_str(), go, &mut ev, seed, exhaustive, per_len, max_pairs, rj);
+    if exhaustive {
+        ev.count("exhaustive_u8", 1);
     }
     ev
 }
@@ -203,6 +289,10 @@ fn main() {
         "hist" => cmd_hist(&a),
         "pool" => cmd_pool(&a),
         "pairs" => cmd_pairs(&a),
+        "threads" => cmd_threads(&a),
+        "churn" => cmd_churn(&a),
+        "sweep" => cmd_sweep(&a),
+        "algebra" => cmd_algebra(&a),
         _ => {
             eprintln!("usage: ptv <hist|...> key=value ...");
             std::process::exit(2);
